@@ -39,7 +39,10 @@ def _fill_glyph(g, gs):
             pen.addPoint((x, y), segmentType=st, smooth=smooth)
         pen.endPath()
     for c in gs.get("components", []):
-        pen.addComponent(c["base"], tuple(c["t"]))
+        if c.get("id"):
+            pen.addComponent(c["base"], tuple(c["t"]), identifier=c["id"])
+        else:
+            pen.addComponent(c["base"], tuple(c["t"]))
     for a in gs.get("anchors", []):
         ad = {"name": a["name"], "x": a["x"], "y": a["y"]}
         if a.get("identifier"):
